@@ -541,8 +541,13 @@ type engCase struct {
 	CancelAt  int `json:"cancel_after_reports"` // 0 = run to the end
 	// Discard > 0: discard_overflow on and a const schedule of Tokens tokens per second for 1 s that
 	// was started Discard ms ago, so the first tokens are ≥ 2 s late (discarded), the rest are fired.
-	Discard int   `json:"discard_prestart_ms,omitempty"`
-	Seed    int64 `json:"seed"`
+	Discard int `json:"discard_prestart_ms,omitempty"`
+	// Ammo > 0: the run ends because the ammo runs out (Ammo items, per-instance unlimited RPS) while
+	// the startup profile — Instances at once, then 10 more per second for RampMs — is still
+	// releasing instances; every second gun is slow, so shots are in flight at that moment.
+	Ammo   int   `json:"ammo,omitempty"`
+	RampMs int   `json:"startup_ramp_ms,omitempty"`
+	Seed   int64 `json:"seed"`
 }
 
 func engineOnce(res *vkit.Result, c engCase) {
@@ -562,6 +567,17 @@ func engineOnce(res *vkit.Result, c engCase) {
 		},
 		NewRPSSchedule:  func() (core.Schedule, error) { return schedule.NewOnce(int64(c.Tokens)), nil },
 		StartupSchedule: schedule.NewOnce(int64(c.Instances))}
+	if c.Ammo > 0 {
+		prov.Items = c.Ammo
+		c.Tokens = c.Ammo
+		pool.NewRPSSchedule = func() (core.Schedule, error) { return schedule.NewUnlimited(time.Hour), nil }
+		pool.RPSPerInstance = true
+		pool.StartupSchedule = schedule.NewComposite(schedule.NewOnce(int64(c.Instances)), schedule.NewConst(10, time.Duration(c.RampMs)*time.Millisecond))
+		pool.NewGun = func() (core.Gun, error) {
+			n := gunSeq.Add(1)
+			return &repGun{st: st, rng: rand.New(rand.NewSource(c.Seed + n)), shotDelay: time.Duration(c.ShotUs) * time.Microsecond * time.Duration(n%2)}, nil
+		}
+	}
 	if c.Discard > 0 {
 		shared := schedule.NewConst(float64(c.Tokens), time.Second)
 		shared.Start(time.Now().Add(-time.Duration(c.Discard) * time.Millisecond))
@@ -965,6 +981,10 @@ func main() {
 	// overload: tokens of the first 1.2 s of a 3.2 s-old schedule are discarded while guns keep acquiring samples
 	engineOnce(res, engCase{Instances: 6, Tokens: 3000, ShotUs: 200, Queue: 4096, Discard: 3200, Seed: 33})
 	engineOnce(res, engCase{Instances: 2, Tokens: 800, ShotUs: 50, Queue: 64, Discard: 2600, Seed: 34})
+	// the ammo runs out while instances are still being started and slow shots are in flight
+	for i, n := 0, vkit.N(12, 120); i < n; i++ {
+		engineOnce(res, engCase{Instances: 2 + rng.Intn(5), Ammo: 4 + rng.Intn(60), ShotUs: 500 + rng.Intn(4000), Queue: []int{1, 64, 4096}[rng.Intn(3)], RampMs: 2000, Seed: rng.Int63()})
+	}
 	for i, n := 0, vkit.N(40, 600); i < n; i++ {
 		c := engCase{Instances: 1 + rng.Intn(12), Tokens: 50 + rng.Intn(800), ShotUs: []int{0, 0, 10, 100}[rng.Intn(4)],
 			Queue: []int{1, 4, 64, 4096}[rng.Intn(4)], Seed: rng.Int63()}
